@@ -266,13 +266,15 @@ package idxfile
 //gvc:func (*idxfilePrefixIter).bucketOffset
 //gvc:  props C10 C53
 //gvc:  theory int
+//gvc:  opt coarse
+//gvc:  opt frame args
 //gvc:  results off err
-//gvc:  requires nn: i != nil
-//gvc:  requires pos: 0 <= pos && pos * 4 + 4 <= len(i.offset32)
+//gvc:  let inside = 0 <= pos && pos < 0x1000000000000 && pos * 4 + 4 <= len(i.offset32)
 //gvc:  let o32 = i.offset32[pos * 4] * 16777216 + i.offset32[pos * 4 + 1] * 65536 + i.offset32[pos * 4 + 2] * 256 + i.offset32[pos * 4 + 3]
-//gvc:  ensures small: o32 < 0x80000000 ==> err == nil && off == o32
-//gvc:  ensures large: o32 >= 0x80000000 && err == nil ==> 8 * (o32 - 0x80000000) + 8 <= len(i.offset64)
-//gvc:  ensures reject: o32 >= 0x80000000 && 8 * (o32 - 0x80000000) + 8 > len(i.offset64) ==> err != nil
+//gvc:  ensures small: inside && o32 < 0x80000000 ==> err == nil && off == o32
+//gvc:  ensures large: inside && o32 >= 0x80000000 && err == nil ==> 8 * (o32 - 0x80000000) + 8 <= len(i.offset64)
+//gvc:  ensures reject: inside && o32 >= 0x80000000 && 8 * (o32 - 0x80000000) + 8 > len(i.offset64) ==> err != nil
+//gvc:  ensures noteof: err != io.EOF
 //gvc:end
 
 // OnHeader (property C53: no allocation out of proportion to the input). The
@@ -301,4 +303,29 @@ package idxfile
 //gvc:  requires room: w.index != nil && len(w.index.Offset64) <= 0x800000000
 //gvc:  ensures slot: err == nil && old(w.offset64) < 0x80000000 ==> index == old(w.offset64) + 0x80000000 && w.offset64 == old(w.offset64) + 1
 //gvc:  ensures grown: len(w.index.Offset64) <= old(len(w.index.Offset64)) + 8
+//gvc:end
+
+// idxfilePrefixIter.Next (C10: prefix enumeration agrees in every index
+// implementation and with a plain map). Within the bucket the iterator walks,
+// an entry is yielded only if its name starts with the prefix, and the end of
+// the enumeration is reported only at the end of the bucket or at a name that
+// does not start with it -- the names are sorted, so that is the end of the
+// run, for every prefix (a prefix ending in 0xff included).
+//gvc:func (*idxfilePrefixIter).Next
+//gvc:  props C10 C53
+//gvc:  theory int
+//gvc:  opt coarse
+//gvc:  opt frame args
+//gvc:  results e err
+//gvc:  ensures match: err == nil && (i.idSize == 20 || i.idSize == 32) && old(0 <= i.pos && i.pos < 0x1000000000000) ==> old(0 <= i.pos && i.pos * i.idSize + i.idSize <= len(i.names) && forall(k, 0, len(i.prefix), i.names[i.pos * i.idSize + k] == i.prefix[k]))
+//gvc:  ensures exhaust: err == io.EOF ==> old(i.done || !(i.idSize == 20 || i.idSize == 32) || i.pos < 0 || i.pos >= 0x1000000000000 || i.pos * i.idSize + i.idSize > len(i.names) || len(i.prefix) > i.idSize || exists(k, 0, len(i.prefix), i.names[i.pos * i.idSize + k] != i.prefix[k]))
+//gvc:  ensures advance: err == nil && old(0 <= i.pos && i.pos < 0x1000000000000) ==> i.pos == old(i.pos) + 1
+//gvc:end
+
+// bucketCRC32 only reads the iterator.
+//gvc:func (*idxfilePrefixIter).bucketCRC32
+//gvc:  props C10
+//gvc:  theory int
+//gvc:  opt coarse
+//gvc:  opt frame args
 //gvc:end
